@@ -409,6 +409,23 @@ func C13(c *core.Ctx) {
 			return setTcb(v, miss, dSeq(sgxOid(2, 40), dIntI(1)))
 		}, "")
 	}
+	// entries whose OID is near, but not in, the component family: last arc 0 or past 18, a
+	// longer or shorter OID, a sibling prefix with a valid last arc
+	for _, arcs := range [][]int{{2, 0}, {2, 19}, {2, 20}, {2, 255}, {2, 256}, {2, 257}, {2, 65537}, {2, 1<<31 - 1}, {2, 1, 0}, {2, 3, 1}, {2}, {3, 5}, {1, 5}, {2, 0, 5}} {
+		arcs := arcs
+		for _, miss := range []int{0, 4, 15, 16, 17} {
+			miss := miss
+			mal(fmt.Sprintf("TCB element %d replaced by one with OID suffix %v", miss+1, arcs), func(v sgxVals) []byte {
+				return setTcb(v, miss, dSeq(sgxOid(arcs...), dIntI(int64(r.Intn(256)))))
+			}, "")
+		}
+	}
+	for _, arcs := range [][]int{{0}, {6}, {255}, {1, 0}, {2, 1}} {
+		arcs := arcs
+		mal(fmt.Sprintf("PPID element replaced by one with OID suffix %v", arcs), func(v sgxVals) []byte {
+			return setEl(v, 0, dSeq(sgxOid(arcs...), dOct(v.ppid)))
+		}, "")
+	}
 	mal("17 TCB elements", func(v sgxVals) []byte { el := v.elems(); el[1] = dSeq(sgxOid(2), dSeq(v.tcbElems()[:17]...)); return top(el) }, "")
 	mal("19 TCB elements", func(v sgxVals) []byte {
 		el := v.elems()
